@@ -21,7 +21,8 @@ RULE = ('histories = all sequences over {start, shutdown} of length 1..4; enviro
         'NO_TRACE{unset,True} x plugins{0,1,2}; faults = {none, send raises Exception, send raises BaseException, send slow, poll raises, '
         'poll malformed, plugin i shutdown raises, plugin i resource raises}; after each operation hooks/started/timer/plugins/deliveries are '
         'compared with the model, and after a shutdown a matching trace event is delivered to the handler; non-trivial = history has a '
-        'shutdown after a start with a fault, a pre-existing hook, or NO_TRACE')
+        'shutdown after a start with a fault, a pre-existing hook, or NO_TRACE'
+        " ; start and shutdown on different threads x {sys hook, threading hook, caller's hook, NO_TRACE}; a second start() / a shutdown() arriving while the first start() is parked in a plugin's resource()")
 ASSUMPTIONS = ['a start after a shutdown (restart) may be refused or work, but must leave hooks consistent with `started`',
                'the poll interval is long (no tick during the sequential histories); ticks racing shutdown are explored in the E1 harness']
 
